@@ -608,7 +608,9 @@ def judge_step(ref, letter, state, obs):
             bad(f'valid-request-refused:{errclass}', f'the reference conversion of the payload is {exp.value!r}')
         elif errclass not in exp.classes:
             # the signature names the request class and the classes involved, not the parameter kind
-            why = '' if exp.verdict == 'refuse' else f':{kind_of(x)}-payload-for-{tcls.split(":")[-1]}'
+            why = ''
+            if exp.verdict != 'refuse' and errclass in PAYLOAD_CLASSES:
+                why = f':{kind_of(x)}-payload-for-{tcls.split(":")[-1]}'    # e.g. RangeError for a string offered as number
             sig = f'C04:{action}:{exp.reason}:error-class:{errclass}{why}'
             if errclass == 'InternalError':
                 sig += ':' + norm(reply[2][1])
